@@ -381,12 +381,20 @@ def mcStateExtra : Codec :=
       dep "block_create_stats" (fun e => if e.nat "flags" % 2 = 1 then blockCreateStats else nothing)])),
     fld "global_balance" currencyCollection])
 
-/-- `masterchain_block_extra#cca5`; ShardFees, the signature dictionary and the two `^InMsg` are kept at cell level
-    (the parser keeps them as cells / raw slices) -/
+def shardFeeCreated : Codec := recd [fld "fees" currencyCollection, fld "create" currencyCollection]
+/-- `_ (HashmapAugE 96 ShardFeeCreated ShardFeeCreated) = ShardFees` -/
+def shardFees : Codec := hashmapAugE 96 shardFeeCreated shardFeeCreated
+
+/-- `sig_pair$_ node_id_short:bits256 sign:CryptoSignature` with `ed25519_signature#5 R:bits256 s:bits256`
+    (the `chained_signature#f` form is not transcribed) -/
+def cryptoSignaturePair : Codec :=
+  recd [fld "node_id_short" bits256, fld "sign" (ctag (tag 4 5) (recd [fld "R" bits256, fld "s" bits256]))]
+
+/-- `masterchain_block_extra#cca5`; the two `^InMsg` are kept at cell level (the parser keeps them as cells) -/
 def mcBlockExtra : Codec :=
   ctag (tag 16 0xcca5) (recd [fld "key_block" (uint 1), fld "shard_hashes" shardHashes,
-    fld "shard_fees" (maybe cellRef),
-    fld "_ref1" (ref (recd [fld "prev_blk_signatures" (maybe cellRef), fld "recover_create_msg" (maybe cellRef),
+    fld "shard_fees" shardFees,
+    fld "_ref1" (ref (recd [fld "prev_blk_signatures" (hashmapE 16 cryptoSignaturePair), fld "recover_create_msg" (maybe cellRef),
       fld "mint_msg" (maybe cellRef)])),
     dep "config" (fun e => if e.nat "key_block" = 1 then configParams else nothing)])
 
